@@ -227,8 +227,12 @@ func drainRestores(c *Ctx, rule string, fn, upd *ssa.Function, mark *ssa.Call, d
 
 // dominatingCondsOtherThanLoop: conditions controlling `in` other than range/loop continuation tests.
 func dominatingCondsOtherThanLoop(in ssa.Instruction) []condEdge {
+	return condsOtherThanLoop(dominatingConds(in.Block()))
+}
+
+func condsOtherThanLoop(all []condEdge) []condEdge {
 	var out []condEdge
-	for _, ce := range dominatingConds(in.Block()) {
+	for _, ce := range all {
 		if e, ok := ce.cond.(*ssa.Extract); ok {
 			if _, isNext := e.Tuple.(*ssa.Next); isNext {
 				continue
